@@ -663,7 +663,10 @@ Boot(s0) ==
       cmost == IF haveC /\ cvs # "PANIC" /\ ~cl.bad /\ DOMAIN cl.pc # {}
                  THEN LET mx == CHOOSE t \in DOMAIN cl.pc : \A u \in DOMAIN cl.pc : SumPow(cvs, cl.pc[t]) >= SumPow(cvs, cl.pc[u]) IN mx
                  ELSE "none"
-      chdr == IF cmost # "none" /\ cmost \in Labels /\ (\E p \in cl.phs : p.hdr = cmost) THEN cmost ELSE "none"
+      \* the committing header is the one on record in the committed header store; only if it is missing, the most voted
+      \* block of the stored precommits, provided its proposed header is stored too
+      chdr == IF haveC /\ chh \in DOMAIN s1.hdr THEN s1.hdr[chh].hdr
+              ELSE IF cmost # "none" /\ cmost \in Labels /\ (\E p \in cl.phs : p.hdr = cmost) THEN cmost ELSE "none"
       cpcp == IF haveC /\ chh > InitH /\ (chh - 1) \in DOMAIN s1.hdr
                 THEN [r |-> s1.hdr[chh - 1].r, pkh |-> s1.hdr[chh - 1].pkh, proofs |-> s1.hdr[chh - 1].proofs] ELSE EmptyPCP
       \* the voting height uses the next validators of the committing header, as CommitHeader does while running
